@@ -70,6 +70,12 @@ pub struct NodeDump {
     pub observed: Vec<QueryID>,
     /// The dependencies whose edge is currently marked dirty.
     pub dirty_forward: Vec<QueryID>,
+    /// The observed dependencies whose observed value fingerprint is the one
+    /// the dependency records now.
+    pub observed_value_current: Vec<QueryID>,
+    /// The observed dependencies whose observed fingerprint of transitive
+    /// firewall callees is the one the dependency records now.
+    pub observed_tfc_current: Vec<QueryID>,
 }
 
 /// Reads the persisted bookkeeping of `query`. Does not change anything.
@@ -101,13 +107,33 @@ pub async fn dump_node<C: Config, Q: Query>(
         .await
         .map(|order| order.iter_all_callees().collect())
         .unwrap_or_default();
-    let observed = snapshot
-        .forward_edge_observation()
-        .await
+    let observations = snapshot.forward_edge_observation().await;
+    let observed = observations
+        .as_ref()
         .map(|obs| obs.0.keys().copied().collect())
         .unwrap_or_default();
 
     drop(snapshot);
+
+    let mut observed_value_current = Vec::new();
+    let mut observed_tfc_current = Vec::new();
+    if let Some(observations) = &observations {
+        for (callee, observation) in observations.0.iter() {
+            let Some(info) =
+                engine.computation_graph.database.peek_node_info(callee).await
+            else {
+                continue;
+            };
+            if info.value_fingerprint() == observation.seen_value_fingerprint {
+                observed_value_current.push(*callee);
+            }
+            if info.transitive_firewall_callees_fingerprint()
+                == observation.seen_transitive_firewall_callees_fingerprint
+            {
+                observed_tfc_current.push(*callee);
+            }
+        }
+    }
 
     let mut dirty_forward = Vec::new();
     for callee in &forward {
@@ -124,5 +150,7 @@ pub async fn dump_node<C: Config, Q: Query>(
         forward,
         observed,
         dirty_forward,
+        observed_value_current,
+        observed_tfc_current,
     }
 }
